@@ -40,8 +40,9 @@ pub fn strs(v: &Value) -> Vec<String> {
 }
 
 /// Runs the script (lines) as the standard input of `yash [options]`.
-/// `o`: start-up options {x, v, n, i}; `dots`: [{f, lines}] dot scripts.
-pub fn run_scenario(lines: &[String], o: &Value, dots: &Value) -> Obs {
+/// `o`: start-up options {x, v, n, i}; `dots`: [{f, lines}] dot scripts;
+/// `env`: "" or "PS4=value" (PS4 inherited from the environment).
+pub fn run_scenario(lines: &[String], o: &Value, dots: &Value, env: &str) -> Obs {
     let mut text = lines.join("\n");
     text.push('\n');
     let mut argv = vec!["yash".to_string()];
@@ -70,6 +71,10 @@ pub fn run_scenario(lines: &[String], o: &Value, dots: &Value) -> Obs {
             content: t.into_bytes(),
             mode: 0o644,
         });
+    }
+    // `env`: "" or "NAME=value", a variable in the environment of the shell
+    if let Some((n, v)) = env.split_once('=') {
+        cfg.env.push((n.to_string(), v.to_string()));
     }
     cfg.step_limit = 400_000;
     let res = match catch(|| run_shell(cfg)) {
